@@ -287,6 +287,31 @@ def blocks_to_bytes(
     )
 
 
+def blocks_to_constants(
+    blocks: Blocks, additional_args: AdditionalArgs, block_type: TypeOfCode
+) -> tuple[ConstantValue, ...]:
+    """
+    The table of constants the instructions and the additional args refer to,
+    the same as computed by `blocks_to_bytes`.
+    """
+    from . import Function
+
+    constants = FromArgs[ConstantValue](_hash_fn=constant_key)
+    if isinstance(block_type, Function) and block_type.docstring is not None:
+        constants[0] = block_type.docstring
+    unused = FromArgs[str]()
+    for block in blocks:
+        for instruction in block:
+            if isinstance(instruction.arg, Constant):
+                from_arg(
+                    instruction.arg, block_type, (), unused, unused, unused, constants
+                )
+    for arg in additional_args:
+        if isinstance(arg, Constant):
+            from_arg(arg, block_type, (), unused, unused, unused, constants)
+    return constants.to_tuple()
+
+
 def to_arg(
     opcode: int,
     arg: int,
